@@ -52,6 +52,8 @@ def run_deductive(rep):
     items.append((Create(True), [("sensitive_levels_before_control_levels", verify.replace_expr("(control_feature_names or []) + sensitive_feature_names", "sensitive_feature_names + (control_feature_names or [])"))]))
     items.append((Create(False), []))
     verify.verify_many(rep, items)
+    from ..static import provenance
+    provenance.report(rep, only=("metrics/",))
     fn = "fairlearn/metrics/_metric_frame.py::MetricFrame._construct_annotated_metric_function"
     for name, hyps, goal in column_name_injectivity():
         r = solve.prove(name, hyps, goal, 20000)
